@@ -8,19 +8,42 @@ EXTENDS Region, RegionAlphabet, Json
 
 CONSTANTS K, Emit
 
-VARIABLE hist
-vars == <<S, answer, hist>>
+VARIABLES hist,
+          disk,     \* content of the one .mim file used by save_file / load_file ({-1} = no file yet)
+          live      \* a second LIVE region L of the same depth (covered set); regions are independent values
+vars == <<S, answer, hist, disk, live>>
+
+NoFile == {-1}
 
 SetOps == {"without", "intersect", "symmetric_difference"}
 
-Rec(r) == hist' = IF Emit THEN Append(hist, r @@ [post |-> S', ans |-> answer']) ELSE hist
+Rec(r) == hist' = IF Emit THEN Append(hist, r @@ [post |-> S', ans |-> answer', postlive |-> live']) ELSE hist
 
 OperandJson(o) == [name |-> o.name, depth |-> o.depth,
                    rep |-> [d \in DOMAIN o.rep |-> o.rep[d]]]
 
-MCInit == Init /\ hist = <<>>
+MCInit == Init /\ hist = <<>> /\ disk = NoFile /\ live = {}
 
-MCNext ==
+\* ---- files and a second live region (only explored in history mode) -----------
+LiveArgs == IF D = 3 THEN {<<3, {5, 6}>>, <<2, {1}>>, <<3, {0}>>} ELSE IF D = 2 THEN {<<2, {1}>>, <<1, {0}>>} ELSE {<<1, {0}>>}
+
+DiskLiveNext ==
+    /\ Emit
+    /\ \/ /\ disk' = S /\ S' = S /\ answer' = NoAnswer /\ UNCHANGED live
+          /\ Rec([op |-> "save_file"])
+       \/ /\ disk # NoFile /\ S' = disk /\ answer' = NoAnswer /\ UNCHANGED <<disk, live>>
+          /\ Rec([op |-> "load_file"])
+       \/ \E a \in LiveArgs :
+             /\ live' = live \cup DescSet(a[2], a[1], D) /\ S' = S /\ answer' = NoAnswer /\ UNCHANGED disk
+             /\ Rec([op |-> "live_add", level |-> a[1], pix |-> a[2]])
+       \/ /\ S' = S \cup live /\ answer' = NoAnswer /\ UNCHANGED <<disk, live>>
+          /\ Rec([op |-> "union_live"])
+       \/ /\ S' = S \ live /\ answer' = NoAnswer /\ UNCHANGED <<disk, live>>
+          /\ Rec([op |-> "without_live"])
+       \/ /\ live' = live \cup S /\ S' = S /\ answer' = NoAnswer /\ UNCHANGED disk
+          /\ Rec([op |-> "live_union_self"])
+
+RegionNext ==
     \/ \E a \in AddArgs :
           \/ AddPixels(a[2], a[1]) /\ Rec([op |-> "add_pixels", level |-> a[1], pix |-> a[2]])
           \/ AddPixels(a[2], a[1]) /\ Rec([op |-> "add_shape", level |-> a[1], pix |-> a[2]])
@@ -37,6 +60,10 @@ MCNext ==
     \/ ExportMoc /\ Rec([op |-> "export_moc"])
     \/ ExportReg /\ Rec([op |-> "export_reg"])
     \/ \E q \in Probes : SkyWithin(q) /\ Rec([op |-> "sky_within", pix |-> q])
+
+MCNext ==
+    \/ DiskLiveNext
+    \/ UNCHANGED <<disk, live>> /\ RegionNext
 
 MCSpec == MCInit /\ [][MCNext]_vars
 
